@@ -122,10 +122,17 @@ class Sim(object):
             for r in self.live:
                 if r[3] and r[0] == addr:
                     zero = "zero-size-involved" if (size == 0 or r[1] == 0) else "non-zero-sizes"
-                    self.note("%s:same-address:%s" % (api, zero),
+                    # the allocator to blame is the one that handed out a zero-sized region without reserving
+                    # its address (the earlier one if it was zero-sized)
+                    blame = r[4] if (r[1] == 0 and len(r) > 4) else api
+                    if len(r) > 4 and family(r[4]) != family(api):
+                        # bump heap vs mmap: each allocator is blind to (zero-sized) regions of the other
+                        blame = api
+                        zero = "foreign-allocator:" + zero
+                    self.note("%s:same-address:%s" % (blame, zero),
                               "%s (size 0x%x) has the address of live %s (size 0x%x)" % (desc, size, r[2], r[1]))
                     break
-        self.live.append([addr, size, what, True])
+        self.live.append([addr, size, what, True, api])
 
     def note(self, bucket, detail):
         """a breach that does not stop the history (the model goes on with the region as returned)"""
@@ -258,9 +265,12 @@ class Sim(object):
                     if r[0] < h:
                         nl.append([r[0], h - r[0], r[2] + " (head)", r[3]])
                     if r[0] + r[1] > h + size:
-                        nl.append([h + size, r[0] + r[1] - (h + size), r[2] + " (tail)", False])
+                        # the part above the fixed mapping is still a live region of the same kind (it has no
+                        # allocation address of its own any more: never matched by the same-address rule since
+                        # an allocator returning it would first overlap it)
+                        nl.append([h + size, r[0] + r[1] - (h + size), r[2] + " (tail)", r[3]])
                 self.live = nl
-                self.live.append([h, size, what, True])
+                self.live.append([h, size, what, True, "mmap:fixed"])
         elif name == "brk":
             mode = op[2] % 4
             if mode == 0:
@@ -304,6 +314,10 @@ class Sim(object):
                 if r[3] and r[1] and r[0] < self.brk_max and BRK_BASE < r[0] + r[1]:
                     self.note("brk:overlaps:allocation", "break area [0x%x, 0x%x) overlaps live %s [0x%x, +0x%x)"
                               % (BRK_BASE, self.brk_max, r[2], r[0], r[1]))
+
+
+def family(api):
+    return "mmap" if api.startswith("mmap") else "heap"
 
 
 class DroppedOp(Exception):
